@@ -176,6 +176,9 @@ func newScratch(p *Prop, withTests bool) (*scratch, map[string][]byte, error) {
 				twin = strings.Replace(twin, "\nimport \""+pk+"\"\n", "\n", 1)
 			}
 			twin = strings.Replace(twin, "func main()", "func Main()", 1)
+			// the language version of the reference: the interpreter implements the loop variable
+			// semantics of go1.22, the module of the repository declares go 1.21
+			twin = "//go:build go1.22\n\n" + twin
 			sub := filepath.Join(dir, "e2e_"+name)
 			os.MkdirAll(sub, 0o755)
 			real := filepath.Join(sub, "prog.go")
